@@ -35,6 +35,8 @@ theorem bornNew_step (c : Conn α) (l : Label α) : BornNew c (step c l) := by
   | sclose _ _ => rw [(step_ghost_other c _ (by intros; simp)).1] at hx; exact Or.inl hx
   | «end» => exact Or.inl hx
   | evict _ _ => exact Or.inl hx
+  | wroute _ _ _ => rw [(step_ghost_other c _ (by intros; simp)).1] at hx; exact Or.inl hx
+  | wdeliver _ => rw [(step_ghost_other c _ (by intros; simp)).1] at hx; exact Or.inl hx
 
 theorem bornNew_run {c : Conn α} (hw : Inv c) (ls : List (Label α)) : BornNew c (run c ls) := by
   induction ls generalizing c with
@@ -47,12 +49,13 @@ theorem bornNew_run {c : Conn α} (hw : Inv c) (ls : List (Label α)) : BornNew 
     · have := (grow_step hw l).exs.1
       exact Or.inr (by omega)
 
-theorem ext_run {c : Conn α} (hw : Inv c) (h10 : Inv10 c) (hb : InvBorn c) (ls : List (Label α)) : Ext c (run c ls) := by
+theorem ext_run {c : Conn α} (hw : Inv c) (h10 : Inv10 c) (hpr : PendRouted c) (hb : InvBorn c) (ls : List (Label α)) :
+    Ext c (run c ls) := by
   induction ls generalizing c with
   | nil => exact Ext.refl c
   | cons l rest ih =>
     simp only [run, List.foldl_cons]
-    exact (ext_step h10 hb l).trans (ih (inv_step hw l) (inv10_step hw h10 l) (invBorn_step hw hb l))
+    exact (ext_step h10 hb l).trans (ih (inv_step hw l) (inv10_step hw h10 hpr l) (pendRouted_step h10 hpr l) (invBorn_step hw hb l))
 
 /-! ### record-level facts for C10 -/
 
@@ -153,6 +156,8 @@ theorem recFacts10_step {c : Conn α} (hb : InvBorn c) (l : Label α) : RecFacts
     | sclose _ _ => exact absurd rfl hop
     | «end» => exact absurd rfl hop
     | evict _ _ => exact absurd rfl hop
+    | wroute _ _ _ => exact absurd rfl hop
+    | wdeliver _ => exact absurd rfl hop
 
 /-! ### the passes before the events -/
 
@@ -365,8 +370,9 @@ def WellTaggedGroups (prov : α → Prov σ) (sn : σ) : Conn α → List (List 
 
 theorem inv10All_run {prov : α → Prov σ} {sn : σ} {c : Conn α} (hi : Inv10All prov sn c) (ls : List (Label α))
     (hl : WellTaggedRun prov sn c ls) : Inv10All prov sn (run c ls) :=
-  ⟨inv_runFrom hi.w ls, invK_runFrom hi.w hi.k ls, inv10_runFrom hi.w hi.r ls, invBorn_runFrom hi.w hi.b ls,
-    invJ_runFrom hi.w hi.r hi.b hi.j ls, invId_runFrom hi.w hi.id ls, tagged_runFrom hi.w hi.r hi.b hi.tag ls hl⟩
+  ⟨inv_runFrom hi.w ls, invK_runFrom hi.w hi.k ls, (inv10_runFrom hi.w hi.r hi.pr ls).1, invBorn_runFrom hi.w hi.b ls,
+    invJ_runFrom hi.w hi.r hi.pr hi.b hi.j ls, invId_runFrom hi.w hi.id ls, (tagged_runFrom hi.w hi.r hi.pr hi.b hi.tag hi.pp ls hl).1,
+    (inv10_runFrom hi.w hi.r hi.pr ls).2, (tagged_runFrom hi.w hi.r hi.pr hi.b hi.tag hi.pp ls hl).2⟩
 
 theorem accepts10_from (prov : α → Prov σ) (sn : σ) : ∀ (gs : List (List (Label α))) (c : Conn α) (m : MonS σ α),
     Inv10All prov sn c → MonRel10 sn m c → WellTaggedGroups prov sn c gs → (runV prov m (traceOf sn c gs)).2.v10 = none := by
@@ -377,13 +383,13 @@ theorem accepts10_from (prov : α → Prov σ) (sn : σ) : ∀ (gs : List (List 
     intro c m hi hm hok
     obtain ⟨hwt, hf, hrest⟩ := hok
     have hi' := inv10All_run hi g hwt
-    obtain ⟨v, hm'⟩ := record_ok10 prov hi.b hi' (grow_run hi.w g) (ext_run hi.w hi.r hi.b g) (bornNew_run hi.w g) hf hm
+    obtain ⟨v, hm'⟩ := record_ok10 prov hi.b hi' (grow_run hi.w g) (ext_run hi.w hi.r hi.pr hi.b g) (bornNew_run hi.w g) hf hm
     have := ih (run c g) _ hi' hm' hrest
     simp only [traceOf, runV, foldV] at this ⊢
     simp [Viol.or, v, this]
 
 theorem inv10All_init (prov : α → Prov σ) (sn : σ) (cfg : Cfg) : Inv10All prov sn (init cfg : Conn α) :=
-  ⟨inv_init cfg, invK_init cfg, inv10_init cfg, invBorn_init cfg, invJ_init cfg, invId_init cfg, invMsg_init cfg⟩
+  ⟨inv_init cfg, invK_init cfg, inv10_init cfg, invBorn_init cfg, invJ_init cfg, invId_init cfg, invMsg_init cfg, pendRouted_init cfg, pendP_init cfg⟩
 
 theorem monRel10_init (cfg : Cfg) (sn : σ) : MonRel10 sn (Mon.init cfg.hasStore cfg.jsonResponse : MonS σ α) (init cfg) := by
   refine ⟨rfl, ?_, ?_⟩
